@@ -89,34 +89,43 @@ structure CcState (α : Type) where
   out : List α
   smooth : List α
 
+/-- the 4-tap smoothing of position i of the window: (v[i] + 2v[i−1] + 2v[i−2] + v[i−3]) / 6 -/
+def ccTap (vals : List α) (i : Nat) : M α := do
+  let v0 ← getIdx vals i
+  let v1 ← getIdx vals (i - 1)
+  let v2 ← getIdx vals (i - 2)
+  let v3 ← getIdx vals (i - 3)
+  pure ((v0 + nat 2 * v1 + nat 2 * v2 + v3) / nat 6)
+
+/-- `for (i, v) in smooth.iter_mut().enumerate().take(vals.len()).skip(3)` -/
+def ccSmooth (vals smooth : List α) : M (List α) :=
+  forRange 3 (min vals.length smooth.length) smooth (fun sm i => do
+    let t ← ccTap vals i
+    pure (sm.set i t))
+
+/-- the cycle value from the three newest smoothed values and the two previous outputs -/
+def ccValue (N : Nat) (smooth out : List α) (last : Nat) : M α := do
+  let alpha : α := nat 2 / (nat N + nat 1)
+  let l1 ← usub last 1
+  let l2 ← usub last 2
+  let sm0 ← getIdx smooth last
+  let sm1 ← getIdx smooth l1
+  let sm2 ← getIdx smooth l2
+  let o1 ← getIdx out l1
+  let o2 ← getIdx out l2
+  pure (sq (nat 1 - dec 5 10 * alpha) * (sm0 - nat 2 * sm1 + sm2) + nat 2 * (nat 1 - alpha) * o1 - sq (nat 1 - alpha) * o2)
+
 def ccCoreU (N : Nat) : Core α :=
   { σ := CcState α
     init := { vals := [], out := [], smooth := List.replicate N (nat 0) }
     step := fun s v => do
-      let (vals, out) := if N ≤ s.vals.length then (s.vals.tail, s.out.tail) else (s.vals, s.out)
-      let vals := vals ++ [v]
+      let out := if N ≤ s.vals.length then s.out.tail else s.out
+      let vals := (if N ≤ s.vals.length then s.vals.tail else s.vals) ++ [v]
       if vals.length < N then pure { s with vals := vals, out := out ++ [nat 0] }
       else do
-        let alpha : α := nat 2 / (nat N + nat 1)
         let last ← usub vals.length 1
-        let two : α := nat 2
-        -- `for (i, v) in smooth.iter_mut().enumerate().take(vals.len()).skip(3)`
-        let smooth ← forRange 3 (min vals.length s.smooth.length) s.smooth (fun sm i => do
-          let v0 ← getIdx vals i
-          let v1 ← getIdx vals (i - 1)
-          let v2 ← getIdx vals (i - 2)
-          let v3 ← getIdx vals (i - 3)
-          pure (sm.set i ((v0 + two * v1 + two * v2 + v3) / nat 6)))
-        let l1 ← usub last 1
-        let l2 ← usub last 2
-        let sm0 ← getIdx smooth last
-        let sm1 ← getIdx smooth l1
-        let sm2 ← getIdx smooth l2
-        let o1 ← getIdx out l1
-        let o2 ← getIdx out l2
-        let cc := sq (nat 1 - dec 5 10 * alpha) * (sm0 - two * sm1 + sm2)
-                  + two * (nat 1 - alpha) * o1
-                  - sq (nat 1 - alpha) * o2
+        let smooth ← ccSmooth vals s.smooth
+        let cc ← ccValue N smooth out last
         assertFinite cc
         pure { vals := vals, out := out ++ [cc], smooth := smooth }
     out := fun s => pure s.out.getLast?
